@@ -367,21 +367,22 @@ def zombie_profile(rng, rec):
             rest = [k for k in range(K) if k not in keys] or keys
             seq.append({"id": nid + 1 + j, "op": "GET", "keys": rng.sample(rest, min(len(rest), rng.randint(1, 3))), "dt": dt})
     if rng.random() < 0.65:
-        # the zombie's own late attempt fails: a fault planned for a key of its chunk in a LATER operation in
-        # which the caller only hits (or does not request) that key, so only the zombie can consume it
-        zk = rng.choice(keys[5:] or keys)
+        # the zombie's own late attempt fails: the caller first retries the whole request (which registers every
+        # key), then goes on with operations that do not fetch zk themselves; a fault for zk is planned in each
+        # of them, so whichever one the slow zombie reaches zk in, its attempt fails there
+        seq = [first, {"id": nid + 1, "op": "GET", "keys": list(keys), "dt": 0}]
+        zk = rng.choice(keys[6:] or keys[5:] or keys)
         zid = nid + 20
         others = [k for k in keys if k != zk]
         zkinds = [k for k in fault_kinds_for(knobs["keys"][zk]) if k not in ("SHORT_WRITE", "EMFILE")]
         late = [k for k in zkinds if k in ("ERR_MID", "ERR_AFTER", "RET_FALSE_MID", "NOTFOUND_MID", "EIO", "ENOSPC", "RENAME_EIO",
                                          "PP_ERR_MID", "PP_ERR_AFTER")]
         zkind = rng.choice(late) if (late and rng.random() < 0.7) else rng.choice(zkinds)
-        for j in range(rng.randint(1, 4)):
-            # several operations that do not fetch zk themselves: whichever of them the zombie reaches zk in
-            seq.append({"id": zid + j, "op": "GET", "keys": rng.sample(others, min(len(others), rng.randint(1, 3))), "dt": 0})
+        for j in range(rng.randint(2, 6)):
+            seq.append({"id": zid + j, "op": "GET", "keys": rng.sample(others, min(len(others), rng.randint(1, 4))), "dt": 0})
             rec["faults"].append(dict(make_fault(rng, zid + j, zkind, zk), persist=False))
         seq.append({"id": zid + 9, "op": "GET", "keys": [zk], "dt": 0})
-        knobs["sched"] = {"policy": "straggler", "q": rng.choice([0.02, 0.1, 0.3])}
+        knobs["sched"] = {"policy": "straggler", "q": rng.choice([0.1, 0.2, 0.35])}
     rec["ops"] = ops[:pos] + seq + ops[pos:]
     rec["faults"].append(make_fault(rng, nid, kind, fk))
     if rng.random() < 0.4:
